@@ -53,9 +53,10 @@ type event struct {
 
 // Run is one simulated execution.
 type Run struct {
-	Tape *Tape
-	Seed uint64
-	Prop string
+	Tape  *Tape
+	Seed  uint64
+	Prop  string
+	Index uint64 // run index within the batch
 
 	mu      sync.Mutex
 	pending map[string]*Op
